@@ -5,6 +5,7 @@ import SqlcModel.Driver.C08
 import SqlcModel.Driver.C17
 import SqlcModel.Driver.C04
 import SqlcModel.Driver.C11
+import SqlcModel.Driver.C12
 open Lean Sqlc.Drv
 
 def dispatch (prop kind : String) (inp impl : Json) : Verdict :=
@@ -15,6 +16,7 @@ def dispatch (prop kind : String) (inp impl : Json) : Verdict :=
   | "C17" => c17 kind inp impl
   | "C04" => c04 kind inp impl
   | "C11" => c11 kind inp impl
+  | "C12" => c12 kind inp impl
   | _ => { compare := false, frag := "no-model" }
 
 partial def loop (prop : String) (h : IO.FS.Stream) (out : IO.FS.Stream) : IO Unit := do
